@@ -578,8 +578,10 @@ impl Parser {
             }
             Some(Lexem::Operator(s)) => {
                 let right = self.parse_add_sub()?;
-                let op = Op::from_with_not(s, not);
-                Ok(Some(Expr::op(left.unwrap(), op.unwrap(), right.unwrap())))
+                match Op::from_with_not(s, not) {
+                    Some(op) => Ok(Some(Expr::op(left.unwrap(), op, right.unwrap()))),
+                    None => return Err(String::from("Unknown operator")),
+                }
             }
             _ => {
                 self.drop_lexem();
